@@ -9,6 +9,8 @@ NOTE = ("Trusted base: go/types, go/ssa, the VTA/CHA call graph (x/tools v0.29.0
         "it does not execute parsley code.")
 
 CLAIMED = {
+ "C13": dict(ref="§4 C13", technique="structural SSA rules over the four tree passes: call-site inventory, argument identity, dominance of guards (guard vocabulary), loop-header dominance of returns, full-range index recognition",
+   text="Static structural rules deciding, for every tree shape, that Walk is post-order/exactly-once/abort-immediately (recursion through Walk itself over all children, Walkable delegation), StaticCheck aborts with the first error and records schemas behind err == nil with no foreign guard, Transform delegates to the node's transformer or rebuilds every child in place before returning the node, and Value hands the interpreter the node itself. Foreign node types are assumed to honour Children()/Walk."),
  "C04": dict(ref="§4 C04", technique="path-sensitive nilness abstract interpretation ({nil, non-nil, unknown} over enumerated CFG paths with phi resolution and branch pruning) at the API boundary and in every leaf/filter combinator; dominance checks for End/Evaluate",
    text="Static nilness analysis deciding, for every grammar and input, that parsley.Parse returns exactly one of a non-nil node or a non-nil error on every path, that Evaluate only evaluates behind success, that every leaf parser returns a node xor an error, that End requires IsEOF and Sentence is SeqOf(p, End()), and that no alternation/filter combinator returns a node together with a stale error. Completeness ('succeeds precisely when some parse consumes the whole input') is not decided."),
  "C12": dict(ref="§4 C12", technique="type-level parametricity: translation-coefficient inference (linear constraints over all integer SSA values, fields, parameters and interface method slots; union-find + propagation)",
